@@ -29,7 +29,7 @@ def sh(cmd, cwd=None, timeout=3000, env=None):
 def demo_target(demo_path):
     """where the demo says it goes: '<crate>/tests/<name>.rs' from its leading comment"""
     txt = open(demo_path).read()
-    m = re.search(r"([a-z0-9_]+)/tests/([A-Za-z0-9_]+)\.rs", txt)
+    m = re.search(r"([a-z0-9_]+)/tests/([A-Za-z0-9_-]+)\.rs", txt)
     if not m:
         return None
     return m.group(1), m.group(2)
